@@ -306,7 +306,7 @@ def _wrap_table(fn):
         if changed >= 2:
             ctx.hit("M-table.multi_retarget")
         new = fn(self, jump_targets)
-        if "C06" in ACTIVE:
+        if "C06" in ACTIVE or "C06T" in ACTIVE:
             from .oracles.ctrlvars import table_contract
 
             run_oracle(ctx, "C06.table_contract", table_contract, self, jump_targets, new)
